@@ -247,7 +247,8 @@ func GenConfig(t *rapid.T, maxSets int) *Config {
 	for i := 0; i < n; i++ {
 		var id uint
 		for {
-			id = uint(rapid.SampledFrom([]int{1, 2, 3, 4, 7, 10, 42, 255, 256, 65536, 4294967295}).Draw(t, "id"))
+			// "parameter-set ids greater than zero": the whole range of the configuration's unsigned integer
+			id = uint(rapid.SampledFrom([]uint64{1, 2, 3, 4, 7, 10, 42, 255, 256, 65536, 4294967295, 1, 2, 3, 4294967296, 4294967297, 9223372036854775807, 9223372036854775808, 18446744073709551615}).Draw(t, "id"))
 			if !used[id] {
 				break
 			}
